@@ -8,6 +8,8 @@ From BV Require Import Proofs.PoolHist.
 From BV Require Import Proofs.PoolRefuted.
 From BV Require Lib.PyVal Gen.G_pool_shape Gen.K_timedout Proofs.PoolKernel.
 From BV Require Gen.K_worker Model.Worker Proofs.WorkerProofs.
+From BV Require Model.PoolSys Model.PoolCrash.
+From BV Require Import Model.PoolLimit Proofs.PoolLimitProofs.
 From BV Require Gen.G_pool_pins.
 Import ListNotations.
 Open Scope Z_scope.
@@ -153,3 +155,119 @@ Proof. vm_compute. repeat split. Qed.
 Theorem C05_modelled_code_is_the_validated_text : G_pool_pins.modelled_code_of_C05 = true.
 Proof. reflexivity. Qed.
 Print Assumptions C05_modelled_code_is_the_validated_text.
+
+(* ------------------------------------------------------------------------------------------
+   The CLOSED system with hard time limits (Model/PoolLimit.v, Proofs/PoolLimitProofs.v): client
+   (each call with its own optional limit), queues, pipes, live workers by pid, the clock, and the
+   open pool model as the parent.  [LScan l] is one pass of the timeout handler (the signalled
+   workers die: TERM, and KILL when they linger, l); [LScanRacy l] is the same pass when a worker
+   it would kill has meanwhile gone on to ANOTHER job (the result of the overdue job is still in
+   the pipe): see the recorded finding C10:slot-leaked-when-a-reaped-worker-held-two-jobs.  The
+   statements are about every schedule without the racy scan: any number of jobs, any pool size
+   >= 1 (one included), any limits, any lingering (pools without restart limit and without soft
+   limit). *)
+Theorem C05_limit_parent_is_the_pool_model : forall c n y, lreach c n y -> exists tr, lpar y = run c tr.
+Proof. exact lreach_is_run. Qed.
+Print Assumptions C05_limit_parent_is_the_pool_model.
+
+(* the scan fails EVERY overdue job it sees, with TimeLimitExceeded(the job's effective limit) ... *)
+Theorem C05_limit_scan_fails_every_overdue_job : forall n y l y' k x,
+    LInv n y -> limit_step y (LScan l) = Some y' -> scanner (lpar y) = true ->
+    get_job (lpar y) k = Some x -> dueb (lpar y) x = true ->
+    exists x', get_job (lpar y') k = Some x' /\ ready x' = true
+               /\ value x' = Some (PTimeLimit (hard x)) /\ cb_err x' = 1 /\ cb_succ x' = 0.
+Proof. exact scan_fails_every_overdue_job. Qed.
+Print Assumptions C05_limit_scan_fails_every_overdue_job.
+
+(* ... and touches no other job; overdue = cached, unresolved, accepted at t, limit lim <> 0, t + lim <= now *)
+Theorem C05_limit_scan_touches_no_other_job : forall n y l y' k x,
+    LInv n y -> limit_step y (LScan l) = Some y' ->
+    get_job (lpar y) k = Some x -> dueb (lpar y) x = false -> get_job (lpar y') k = Some x.
+Proof. exact scan_touches_no_other_job. Qed.
+Print Assumptions C05_limit_scan_touches_no_other_job.
+
+Theorem C05_limit_overdue_means : forall n y k x,
+    LInv n y -> get_job (lpar y) k = Some x ->
+    (dueb (lpar y) x = true <->
+     incache x = true /\ ready x = false
+     /\ exists t lim, time_accepted x = Some t /\ hard x = Some lim /\ lim <> 0 /\ t <> 0 /\ t + lim <= now (lpar y)).
+Proof. exact dueb_iff. Qed.
+Print Assumptions C05_limit_overdue_means.
+
+(* "a per-job limit takes precedence over the pool default": the effective limit of job k is the limit
+   its call gave if any (Python `or`), else the pool default *)
+Theorem C05_limit_own_limit_or_default : forall c n y k x,
+    1 <= c_n c -> c_maxr c = None -> c_soft c = None -> lreach c n y -> get_job (lpar y) k = Some x ->
+    exists h, nth_error (llims y) (Z.to_nat k) = Some h /\ hard x = py_or h (t_hard (lpar y)).
+Proof. exact limit_is_own_or_default. Qed.
+Print Assumptions C05_limit_own_limit_or_default.
+
+(* never early, never a job without limit, never by anything but a scan *)
+Theorem C05_limit_only_a_due_scan_times_out : forall n y a y' k x x' h,
+    LInv n y -> is_racy a = false -> limit_step y a = Some y' ->
+    get_job (lpar y) k = Some x -> ready x = false ->
+    get_job (lpar y') k = Some x' -> value x' = Some (PTimeLimit h) ->
+    (exists l, a = LScan l) /\ scanner (lpar y) = true /\ dueb (lpar y) x = true /\ h = hard x.
+Proof. exact time_limit_only_by_due_scan. Qed.
+Print Assumptions C05_limit_only_a_due_scan_times_out.
+
+(* the whole scan, exactly: jobs, signals (TERM, and KILL iff lingering, to the owners of the overdue jobs
+   and to nobody else), who is dead afterwards, and nothing else changes *)
+Theorem C05_limit_scan_exact : forall n y l y',
+    LInv n y -> limit_step y (LScan l) = Some y' ->
+    (forall k, get_job (lpar y') k = option_map (scang (lpar y)) (get_job (lpar y) k))
+    /\ sigs (lpar y') = flat_map (fun jp => sigs_for l (snd jp)) (dpairs (lpar y))
+    /\ (forall q, exited (lpar y') q = exited (lpar y) q || memZ q (map snd (dpairs (lpar y))))
+    /\ (forall q, In q (map snd (dpairs (lpar y))) -> exit_of (lpar y') q = killed l /\ In q (map fst (lwk y)))
+    /\ lwk y' = filter (fun e => negb (memZ (fst e) (map snd (dpairs (lpar y))))) (lwk y)
+    /\ wlist (lpar y') = wlist (lpar y) /\ sem (lpar y') = sem (lpar y) /\ now (lpar y') = now (lpar y).
+Proof. exact lscan_exact. Qed.
+Print Assumptions C05_limit_scan_exact.
+
+(* "the pool goes on serving later jobs with a replacement worker, for every pool size including one":
+   after a supervision pass nobody dead is listed, the pool is at its size, every listed worker is live,
+   and the slots add up *)
+Theorem C05_limit_pass_restores_pool : forall n y y',
+    LInv n y -> limit_step y LTick = Some y' ->
+    dead_workers (lpar y') = [] /\ Z.of_nat (length (wlist (lpar y'))) = nprocs (lpar y')
+    /\ map fst (lwk y') = wlist (lpar y')
+    /\ (putlocks (lpar y') = true ->
+        LaxSem.value (sem (lpar y')) + Z.of_nat (nunres (lpar y')) = LaxSem.bound (sem (lpar y'))).
+Proof. exact pass_restores_pool. Qed.
+Print Assumptions C05_limit_pass_restores_pool.
+
+(* every resolved job has its own result or TimeLimitExceeded(its own effective limit, elapsed) *)
+Theorem C05_limit_resolved_own_result_or_time_limit : forall c n,
+    1 <= c_n c -> c_maxr c = None -> c_soft c = None -> forall y k x,
+    lreach c n y -> get_job (lpar y) k = Some x -> ready x = true -> lresolved_ok y k x.
+Proof. exact lresolved_own_result_or_time_limit. Qed.
+Print Assumptions C05_limit_resolved_own_result_or_time_limit.
+
+(* liveness: progress without ever needing a scan or a wait; every maximal useful schedule ends with all
+   jobs resolved, nobody dead, the pool at size with live workers, every slot back; no state is doomed *)
+Theorem C05_limit_progress : forall n y, LInv n y -> (0 < lwork y)%nat ->
+    exists a y', is_racy a = false /\ luseful y a = true /\ limit_step y a = Some y'.
+Proof. exact lprogress. Qed.
+Print Assumptions C05_limit_progress.
+
+Theorem C05_limit_every_useful_schedule_ends_complete : forall c lims bd sched y,
+    1 <= c_n c -> c_maxr c = None -> c_soft c = None ->
+    no_racy sched -> lall_useful (linit c lims bd) sched -> lrun (linit c lims bd) sched = Some y ->
+    (forall a, is_racy a = false -> luseful y a = true -> limit_step y a = None) ->
+    lcall_complete (length lims) y
+    /\ (length sched <= list_sum (map (fun h => 8 + limw (py_or h (c_hard c))) lims))%nat.
+Proof. exact lmaximal_useful_schedule_completes. Qed.
+Print Assumptions C05_limit_every_useful_schedule_ends_complete.
+
+Theorem C05_limit_no_state_is_doomed : forall n y, LInv n y ->
+    exists sched y', lrun y sched = Some y' /\ no_racy sched /\ lall_useful y sched
+                     /\ lwork y' = 0%nat /\ lcall_complete n y'.
+Proof. exact lcan_always_complete. Qed.
+Print Assumptions C05_limit_no_state_is_doomed.
+
+(* the recorded finding C05:limit-without-scanner in the closed system: without a scanner nothing is ever timed out *)
+Theorem C05_limit_no_scanner_never_times_out : forall c n,
+    1 <= c_n c -> c_maxr c = None -> c_soft c = None -> forall y k x h,
+    lreach c n y -> scanner (lpar y) = false -> get_job (lpar y) k = Some x -> value x <> Some (PTimeLimit h).
+Proof. exact no_scanner_never_times_out. Qed.
+Print Assumptions C05_limit_no_scanner_never_times_out.
